@@ -21,6 +21,7 @@ from lib import ws
 
 PART, NPART = part(), npart()
 NMAX = 4 if os.environ.get("VERIF_TIER", "quick") == "thorough" else 3
+NINIT = 24 if os.environ.get("VERIF_TIER", "quick") == "thorough" else 12  # enumeration orders of a fresh server's workspace_init
 SRV = ws.make_server()
 SHAPES = ["use", "extends", "submodule", "pointer", "associate", "procptr", "binding", "include", "extends_files",
           "mixed", "include_multi", "dummy_iface", "include_in_proc"]
@@ -120,8 +121,8 @@ def render(shape: str, n: int, succ):
     raise AssertionError(shape)
 
 
-def probe_all(files) -> bool:
-    srv = ws.reset(SRV, files)
+def probe_all(files, init_order=None) -> bool:
+    srv = ws.reset(SRV, files) if init_order is None else ws.fresh_init(SRV, files, init_order)
     # indexing / linking / diagnostics must not have failed
     for o in srv.conn.out:
         if o[0] == "err":
@@ -158,21 +159,37 @@ def _reorder(files, order):
 
 
 def cycles(k: int, n: int, s0: int, s1: int, s2: int, s3: int, order: int) -> bool:
-    """every functional graph on n nodes of catalogue shape k, the files opened in 4 different orders: indexed,
-    diagnosed and queried at every identifier
-    pre: 0 <= k < len(SHAPES) and 1 <= n <= NMAX and (k * 5 + n + s0 * 3) % NPART == PART and 0 <= order <= 3
+    """every functional graph on n nodes of catalogue shape k, the files opened one by one in 4 different orders
+    (order 0..3) or indexed by the real workspace_init of a fresh server in up to NINIT enumeration orders (order >= 4):
+    indexed, diagnosed and queried at every identifier
+    pre: 0 <= k < len(SHAPES) and 1 <= n <= NMAX and (k * 5 + n + s0 * 3) % NPART == PART and 0 <= order <= 3 + NINIT
     pre: 0 <= s0 < n and 0 <= s1 < n and 0 <= s2 < n and 0 <= s3 < n
     pre: (n > 1 or s1 == 0) and (n > 2 or s2 == 0) and (n > 3 or s3 == 0)
     post: _
     """
     tick("cycles")
-    k, n, order = conc(k, 0, len(SHAPES) - 1), conc(n, 1, NMAX), conc(order, 0, 3)
+    k, n, order = conc(k, 0, len(SHAPES) - 1), conc(n, 1, NMAX), conc(order, 0, 3 + NINIT)
     succ = [conc(s, 0, n - 1) for s in (s0, s1, s2, s3)][:n]
     with NoTracing():  # k, n, succ are concrete here: the indexed program runs at native speed
         files = render(SHAPES[k], n, succ)
         if len(files) == 1 and order > 0:
             return True
-        res, hung = ws.guarded(lambda: probe_all(_reorder(files, order)), 20)
+        if order <= 3:
+            res, hung = ws.guarded(lambda: probe_all(_reorder(files, order)), 20)
+        else:
+            # a freshly started server: the real workspace_init over the files enumerated in a given order (the
+            # directory listing order is arbitrary); all permutations up to NINIT, evenly spaced beyond
+            import itertools
+            import math
+
+            names = sorted(files)
+            total = math.factorial(len(names))
+            j = order - 4
+            if j >= min(total, NINIT):
+                return True
+            idx = j * total // min(total, NINIT)
+            perm = next(itertools.islice(itertools.permutations(names), idx, None))
+            res, hung = ws.guarded(lambda: probe_all(files, list(perm)), 20)
         ok = bool(res) and not hung
     tock("cycles")
     return ok
